@@ -7,8 +7,11 @@ Reading guide
                        `context.variables` dict of the caller, `h` the caller's xs:dateTime
                        objects, `c.tz` the implicit timezone, `n` a bound on the nesting depth.
                        The answer carries the dict and the objects *as they are afterwards*.
-* `c.q = Quirks.fixed`  : the tree with the three `fix:` commits (F05, F16, F05b);
+* `c.q = Quirks.fixed`  : the tree with the three `fix:` commits of branch fix-c05 (F05, F16, F05b);
+  `Quirks.lexical`      : … plus the repair of F05c (branch fix-c05c): the callee sees its closure only;
   `Quirks.pinned`       : the pinned tree 05acc20 (kept so that the defects stay checked facts).
+  Every theorem names the repairs it needs as hypotheses on the flags, so it applies to whichever tree
+  the check finds (the harness probes the live code for `calleeLexical` and ties the matching model).
 * `sem tz h n e ρ`   : the lexical, side-effect free semantics of XPath 3.1 (EPV/Spec/LexicalSem.lean).
 * `runHistory q n e steps h` : one parsed expression evaluated once per step (own variables, own
                        implicit timezone), the caller's objects persisting from step to step.
@@ -98,16 +101,39 @@ theorem eval_fuel_independent (c : Cfg) (n m : Nat) (e : Expr) (ρ : Env) (h : H
   · have := eval_fuel_le c hle e ρ h r' hm
     rw [hn] at this; cases this; rfl
 
-/-- PARTIAL (known finding F05c): on every program whose inline function bodies are closed in the
-scope where they are DEFINED (`WS true (dom ρ) e`; references outside function bodies are not
+/-- FULL STRENGTH (tree with F05c repaired, `calleeLexical`): on EVERY program, started from atomic
+caller variables, the model returns exactly what the lexical specification returns — the same error,
+or the same observable items — and hands the caller's dict and objects back unchanged. -/
+theorem eval_eq_sem (c : Cfg) (hq1 : c.q.callCopies = true) (hq2 : c.q.operandCopied = true)
+    (hq3 : c.q.calleeLexical = true)
+    (n : Nat) (e : Expr) (ρ : Env) (h : Heap) (hg : groundEnv ρ = true) :
+    outOf (eval c n e ρ h) = semOut c.tz h n e ρ := by
+  have hr := eval_sem_related c hq1 hq2 hq3 h n e true (dom ρ) ρ ρ (ws_lexical e (dom ρ)) (Inv.top hg)
+  unfold semOut
+  rcases hr.cases with ⟨er, h1, h2⟩ | ⟨v1, v2, h1, h2, hv⟩
+  · rw [h1, h2]; rfl
+  · rw [h1, h2]; simp only [outOf]; rw [obs_rel h hv]
+
+/-- … and so does every step of every history (REPEATABLE against the specification, full strength) -/
+theorem history_eq_sem (n : Nat) (e : Expr) (steps : List Step) (h : Heap)
+    (hs : ∀ s, s ∈ steps → groundEnv s.ρ = true) :
+    runHistory .lexical n e steps h = (steps.map fun s => semOut s.tz h n e s.ρ, h) := by
+  rw [repeatable .lexical rfl]
+  congr 1
+  apply List.map_congr_left
+  intro s hm
+  exact eval_eq_sem ⟨.lexical, s.tz⟩ rfl rfl rfl n e s.ρ h (hs s hm)
+
+/-- PARTIAL (finding F05c, tree WITHOUT its repair): on every program whose inline function bodies are closed in the
+scope where they are DEFINED (`WS false true (dom ρ) e`; references outside function bodies are not
 restricted, so `(let $x := 1 return $x, $x)` is covered), started from atomic caller variables,
 the model returns exactly what the lexical specification returns: the same error, or the same
 observable items — and hands the caller's dict and objects back unchanged.
 The full statement (no `WS` hypothesis) is false for the Python code: `f05c_dynamic_scope`. -/
 theorem eval_eq_sem_partial (c : Cfg) (hq1 : c.q.callCopies = true) (hq2 : c.q.operandCopied = true)
-    (n : Nat) (e : Expr) (ρ : Env) (h : Heap) (hg : groundEnv ρ = true) (hw : WS true (dom ρ) e = true) :
+    (n : Nat) (e : Expr) (ρ : Env) (h : Heap) (hg : groundEnv ρ = true) (hw : WS c.q.calleeLexical true (dom ρ) e = true) :
     outOf (eval c n e ρ h) = semOut c.tz h n e ρ := by
-  have hr := eval_sem_related c hq1 hq2 h n e true (dom ρ) ρ ρ hw (Inv.top hg)
+  have hr := eval_sem_related c hq1 hq2 rfl h n e true (dom ρ) ρ ρ hw (Inv.top hg)
   unfold semOut
   rcases hr.cases with ⟨er, h1, h2⟩ | ⟨v1, v2, h1, h2, hv⟩
   · rw [h1, h2]; rfl
@@ -120,20 +146,20 @@ scoping at all. -/
 theorem eval_eq_sem_binders (c : Cfg) (hq1 : c.q.callCopies = true) (hq2 : c.q.operandCopied = true)
     (n : Nat) (e : Expr) (ρ : Env) (h : Heap) (hg : groundEnv ρ = true) (hf : noFn e = true) :
     outOf (eval c n e ρ h) = semOut c.tz h n e ρ :=
-  eval_eq_sem_partial c hq1 hq2 n e ρ h hg (ws_of_noFn e (dom ρ) hf)
+  eval_eq_sem_partial c hq1 hq2 n e ρ h hg (ws_of_noFn _ e (dom ρ) hf)
 
 /-- the same, keeping the function items: results are related by `VRel` (equal atomic items;
 function items with the same parameters and body whose closures agree on the scope of the body) -/
 theorem eval_rel_sem_partial (c : Cfg) (hq1 : c.q.callCopies = true) (hq2 : c.q.operandCopied = true)
-    (n : Nat) (e : Expr) (ρ : Env) (h : Heap) (hg : groundEnv ρ = true) (hw : WS true (dom ρ) e = true) :
-    RRel ρ h (eval c n e ρ h) (sem c.tz h n e ρ) :=
-  eval_sem_related c hq1 hq2 h n e true (dom ρ) ρ ρ hw (Inv.top hg)
+    (n : Nat) (e : Expr) (ρ : Env) (h : Heap) (hg : groundEnv ρ = true) (hw : WS c.q.calleeLexical true (dom ρ) e = true) :
+    RRel c.q.calleeLexical ρ h (eval c n e ρ h) (sem c.tz h n e ρ) :=
+  eval_sem_related c hq1 hq2 rfl h n e true (dom ρ) ρ ρ hw (Inv.top hg)
 
 /-- REPEATABLE, against the specification: every step of every history of one expression returns
 what the lexical semantics assigns to that step's variables and implicit timezone on the
 caller's ORIGINAL objects — nothing of the earlier steps is visible. -/
 theorem history_eq_sem_partial (n : Nat) (e : Expr) (steps : List Step) (h : Heap)
-    (hs : ∀ s, s ∈ steps → groundEnv s.ρ = true ∧ WS true (dom s.ρ) e = true) :
+    (hs : ∀ s, s ∈ steps → groundEnv s.ρ = true ∧ WS false true (dom s.ρ) e = true) :
     runHistory .fixed n e steps h = (steps.map fun s => semOut s.tz h n e s.ρ, h) := by
   rw [repeatable .fixed rfl]
   congr 1
@@ -142,23 +168,24 @@ theorem history_eq_sem_partial (n : Nat) (e : Expr) (steps : List Step) (h : Hea
   exact eval_eq_sem_partial ⟨.fixed, s.tz⟩ rfl rfl n e s.ρ h (hs s hm).1 (hs s hm).2
 
 /-- STATIC SCOPING IS SOUND: if every variable reference of `e` is statically bound
-(`WS false (dom ρ) e`: by a binder or parameter around it, by the scope where the enclosing inline
+(`WS false false (dom ρ) e`: by a binder or parameter around it, by the scope where the enclosing inline
 function is defined, or by a caller's variable), then no evaluation of `e` raises XPST0008 — neither
 in the lexical specification nor in the model of the Python code, at any depth bound. -/
 theorem well_scoped_never_unbound (c : Cfg) (hq1 : c.q.callCopies = true) (hq2 : c.q.operandCopied = true)
-    (n : Nat) (e : Expr) (ρ : Env) (h : Heap) (hg : groundEnv ρ = true) (hw : WS false (dom ρ) e = true) :
+    (n : Nat) (e : Expr) (ρ : Env) (h : Heap) (hg : groundEnv ρ = true) (hw : WS false false (dom ρ) e = true) :
     sem c.tz h n e ρ ≠ .error .unbound ∧ eval c n e ρ h ≠ .error .unbound := by
-  have hi : Inv none false (dom ρ) ρ ρ := by
-    have := Inv.top hg
+  have hi : ∀ lex, Inv lex none false (dom ρ) ρ ρ := by
+    intro lex
+    have := Inv.top (lex := lex) hg
     exact ⟨this.1, this.2.1, fun hf => by cases hf⟩
   have hs : sem c.tz h n e ρ ≠ .error .unbound := by
     intro he
-    have := sem_sound c.tz h n e (dom ρ) ρ hw hi
+    have := sem_sound c.tz h n e (dom ρ) ρ hw (hi false)
     rw [he] at this
     exact this rfl
   refine ⟨hs, ?_⟩
   intro hu
-  have hr := eval_sem_related c hq1 hq2 h n e false (dom ρ) ρ ρ hw hi
+  have hr := eval_sem_related c hq1 hq2 rfl h n e false (dom ρ) ρ ρ (by rw [ws_false_lex]; exact hw) (hi _)
   rcases hr.cases with ⟨er, h1, h2⟩ | ⟨v1, v2, h1, _, _⟩
   · rw [h1] at hu; cases hu; exact hs h2
   · rw [h1] at hu; cases hu
@@ -169,9 +196,10 @@ def f05cWitness : Expr := .letE 1 (.fn [] (.var 5)) (.letE 5 (.int 9) (.call0 (.
 /-- F05c (not repaired): outside the hypothesis `WS` the model of the Python code and the lexical
 semantics differ — the function body sees the `$y` of its CALLER (9 instead of XPST0008). -/
 theorem f05c_dynamic_scope :
-    WS true (dom []) f05cWitness = false ∧
+    WS false true (dom []) f05cWitness = false ∧
     outOf (eval ⟨.fixed, none⟩ 10 f05cWitness [] []) = .ok [.int 9] ∧
-    semOut none [] 10 f05cWitness [] = .err .unbound := by decide
+    semOut none [] 10 f05cWitness [] = .err .unbound ∧
+    outOf (eval ⟨.lexical, none⟩ 10 f05cWitness [] []) = .err .unbound := by decide
 
 /-! ### the defects of the pinned tree, as checked facts about `Quirks.pinned` -/
 
@@ -213,8 +241,8 @@ example : eval ⟨.fixed, none⟩ 3 (.letE 0 (.int 1) (.var 0)) [] [] = .ok ([.i
 /-- TEST (literals): the hypotheses of `eval_eq_sem_partial` hold on a non-trivial program with
 shadowing and a reference after the scope — `let $x := 10 return (function($x){$x+1}(1), $x)`
 with a caller's `$x = 7` — and on `(let $x := 1 return $x, $x)` without caller variables. -/
-example : groundEnv [(0, [.int 7])] = true ∧ WS true (dom [(0, [.int 7])]) f05Witness = true ∧
+example : groundEnv [(0, [.int 7])] = true ∧ WS false true (dom [(0, [.int 7])]) f05Witness = true ∧
     semOut none [] 10 f05Witness [(0, [.int 7])] = .ok [.int 2, .int 10] ∧
-    WS true (dom []) (.seq (.letE 0 (.int 1) (.var 0)) (.var 0)) = true := by decide
+    WS false true (dom []) (.seq (.letE 0 (.int 1) (.var 0)) (.var 0)) = true := by decide
 
 end EPV.C05
